@@ -255,6 +255,25 @@ def cumulative_unsat():
     return cs
 
 
+def guarded_php(p, closing):
+    """PHP(p, p-1) guarded by -g, plus a two-variable gadget that is only decided when g is false: runs of
+    several thousand conflicts (activity rescaling, many restarts, reduce_db) whose model must still be total"""
+    h = p - 1
+    g = 1
+    x = lambda i, j: 2 + i * h + j
+    cl = [[-g] + [x(i, j) for j in range(h)] for i in range(p)]
+    for j in range(h):
+        for i1 in range(p):
+            for i2 in range(i1 + 1, p):
+                cl.append([-g, -x(i1, j), -x(i2, j)])
+    a = 2 + p * h
+    b = a + 1
+    cl += [[-g, -a], [a, b], [-a, -b], [-a, b], [g, a, b]]
+    if closing:
+        cl.append([a, -b, g])
+    return cl
+
+
 def build_cases(seed: int, quick: bool):
     rng = random.Random(seed)
     cases = []
@@ -309,6 +328,15 @@ def build_cases(seed: int, quick: bool):
                           "small": False, "timeout_s": 60})
         cases.append({"clauses": f, "assumptions": [], "solution_limit": 1, "luby_factor": 100, "max_conflicts": 500,
                       "budget_generous": False, "family": name + "-budget500", "timeout_s": 60})
+    # long runs (thousands of conflicts), satisfiable and unsatisfiable variants
+    for pp in ((7, 8) if quick else (7, 8, 9)):
+        for closing in (False, True):
+            cases.append({"clauses": guarded_php(pp, closing), "assumptions": [], "solution_limit": 1, "luby_factor": 100,
+                          "family": f"guarded-php{pp}", "small": False, "timeout_s": 240})
+    for _ in range(0 if quick else 12):
+        n = rng.randint(45, 70)
+        cases.append({"clauses": random_cnf(rng, n, int(n * 4.26), lens=(3,), dup=0, taut=0), "assumptions": [],
+                      "solution_limit": 1, "luby_factor": 100, "family": "hard-3sat", "small": False, "timeout_s": 600})
     # satisfiable php (p == h) and enumeration of many models (blocking clauses, reduce_db)
     cases.append({"clauses": pigeonhole(3, 3), "assumptions": [], "solution_limit": 10, "luby_factor": 1, "family": "php-sat"})
     free = [[i, -i] for i in range(1, 8)]
